@@ -22,6 +22,13 @@ Open Scope Z_scope.
 Definition acct := Z.
 Definition valid := Z.
 
+(* a pending claim, as far as executeClaim is modelled: an inbound deposit of FX, or the (successful) result of an
+   outgoing bridge call. Anybody may execute a pending claim: it carries the authority of the oracle quorum that
+   attested it, not of the caller. *)
+Inductive pclaim :=
+| PSendToFx (receiver : acct) (amt : Z)
+| PResultOk (bcnonce : Z).
+
 Record pst := mkp {
   bal : acct -> Z;                          (* FX *)
   dlg : acct -> valid -> Z;                 (* shares *)
@@ -31,22 +38,29 @@ Record pst := mkp {
   unb : acct -> valid -> Z;                 (* queued in unbonding entries *)
   rrd : acct -> valid -> bool;              (* has a receiving redelegation at the validator *)
   isval : valid -> bool;
-  pool : Z -> option (acct * Z * Z);        (* tx id -> sender, amount, fee *)
+  pool : Z -> option (acct * Z * Z * bool);  (* tx id -> sender, amount, fee, paid in the ERC-20 (true) or in FX (false) *)
   next_tx : Z;
-  bcalls : Z -> option (acct * acct * Z);   (* nonce -> sender, refund address, amount *)
+  bcalls : Z -> option (acct * acct * Z * Z); (* nonce -> sender, refund address, FX amount, ERC-20 amount *)
   next_bc : Z;
   xready : bool;                            (* FX has a bridge token on the target chain and an external height was observed *)
-  switch : list string                      (* SwitchParams.DisablePrecompiles *)
+  switch : list string;                     (* SwitchParams.DisablePrecompiles *)
+  tok : acct -> Z;                          (* balance of a registered (module-owned) ERC-20 *)
+  tka : acct -> Z;                          (* ERC-20 allowance the account gave the crosschain precompile address *)
+  claims : Z -> option pclaim               (* pending (attested, not yet executed) claims by event nonce *)
 }.
 
-Definition set_bal s f := mkp f (dlg s) (rwd s) (wdr s) (alw s) (unb s) (rrd s) (isval s) (pool s) (next_tx s) (bcalls s) (next_bc s) (xready s) (switch s).
-Definition set_dlg s f := mkp (bal s) f (rwd s) (wdr s) (alw s) (unb s) (rrd s) (isval s) (pool s) (next_tx s) (bcalls s) (next_bc s) (xready s) (switch s).
-Definition set_rwd s f := mkp (bal s) (dlg s) f (wdr s) (alw s) (unb s) (rrd s) (isval s) (pool s) (next_tx s) (bcalls s) (next_bc s) (xready s) (switch s).
-Definition set_alw s f := mkp (bal s) (dlg s) (rwd s) (wdr s) f (unb s) (rrd s) (isval s) (pool s) (next_tx s) (bcalls s) (next_bc s) (xready s) (switch s).
-Definition set_unb s f := mkp (bal s) (dlg s) (rwd s) (wdr s) (alw s) f (rrd s) (isval s) (pool s) (next_tx s) (bcalls s) (next_bc s) (xready s) (switch s).
-Definition set_rrd s f := mkp (bal s) (dlg s) (rwd s) (wdr s) (alw s) (unb s) f (isval s) (pool s) (next_tx s) (bcalls s) (next_bc s) (xready s) (switch s).
-Definition set_pool s f n := mkp (bal s) (dlg s) (rwd s) (wdr s) (alw s) (unb s) (rrd s) (isval s) f n (bcalls s) (next_bc s) (xready s) (switch s).
-Definition set_bcalls s f n := mkp (bal s) (dlg s) (rwd s) (wdr s) (alw s) (unb s) (rrd s) (isval s) (pool s) (next_tx s) f n (xready s) (switch s).
+Definition set_bal s f := mkp f (dlg s) (rwd s) (wdr s) (alw s) (unb s) (rrd s) (isval s) (pool s) (next_tx s) (bcalls s) (next_bc s) (xready s) (switch s) (tok s) (tka s) (claims s).
+Definition set_dlg s f := mkp (bal s) f (rwd s) (wdr s) (alw s) (unb s) (rrd s) (isval s) (pool s) (next_tx s) (bcalls s) (next_bc s) (xready s) (switch s) (tok s) (tka s) (claims s).
+Definition set_rwd s f := mkp (bal s) (dlg s) f (wdr s) (alw s) (unb s) (rrd s) (isval s) (pool s) (next_tx s) (bcalls s) (next_bc s) (xready s) (switch s) (tok s) (tka s) (claims s).
+Definition set_alw s f := mkp (bal s) (dlg s) (rwd s) (wdr s) f (unb s) (rrd s) (isval s) (pool s) (next_tx s) (bcalls s) (next_bc s) (xready s) (switch s) (tok s) (tka s) (claims s).
+Definition set_unb s f := mkp (bal s) (dlg s) (rwd s) (wdr s) (alw s) f (rrd s) (isval s) (pool s) (next_tx s) (bcalls s) (next_bc s) (xready s) (switch s) (tok s) (tka s) (claims s).
+Definition set_rrd s f := mkp (bal s) (dlg s) (rwd s) (wdr s) (alw s) (unb s) f (isval s) (pool s) (next_tx s) (bcalls s) (next_bc s) (xready s) (switch s) (tok s) (tka s) (claims s).
+Definition set_pool s f n := mkp (bal s) (dlg s) (rwd s) (wdr s) (alw s) (unb s) (rrd s) (isval s) f n (bcalls s) (next_bc s) (xready s) (switch s) (tok s) (tka s) (claims s).
+Definition set_bcalls s f n := mkp (bal s) (dlg s) (rwd s) (wdr s) (alw s) (unb s) (rrd s) (isval s) (pool s) (next_tx s) f n (xready s) (switch s) (tok s) (tka s) (claims s).
+
+Definition set_tok s f := mkp (bal s) (dlg s) (rwd s) (wdr s) (alw s) (unb s) (rrd s) (isval s) (pool s) (next_tx s) (bcalls s) (next_bc s) (xready s) (switch s) f (tka s) (claims s).
+Definition set_tka s f := mkp (bal s) (dlg s) (rwd s) (wdr s) (alw s) (unb s) (rrd s) (isval s) (pool s) (next_tx s) (bcalls s) (next_bc s) (xready s) (switch s) (tok s) f (claims s).
+Definition set_claims s f := mkp (bal s) (dlg s) (rwd s) (wdr s) (alw s) (unb s) (rrd s) (isval s) (pool s) (next_tx s) (bcalls s) (next_bc s) (xready s) (switch s) (tok s) (tka s) f.
 
 Definition up1 {A} (f : Z -> A) (a : Z) (v : A) : Z -> A := fun x => if Z.eqb x a then v else f x.
 Definition up2 {A} (f : Z -> Z -> A) (a b : Z) (v : A) : Z -> Z -> A :=
@@ -55,6 +69,11 @@ Definition up3 {A} (f : Z -> Z -> Z -> A) (a b c : Z) (v : A) : Z -> Z -> Z -> A
   fun x y z => if Z.eqb x a && Z.eqb y b && Z.eqb z c then v else f x y z.
 
 Definition pay (s : pst) (a : acct) (x : Z) : pst := set_bal s (up1 (bal s) a (bal s a + x)).
+Definition payt (s : pst) (a : acct) (x : Z) : pst := set_tok s (up1 (tok s) a (tok s a + x)).
+(* ERC-20 transferFrom(owner -> erc20 module) by the crosschain precompile: needs and consumes the owner's allowance *)
+Definition take_tok (s : pst) (a : acct) (x : Z) : option pst :=
+  if (tka s a <? x) || (tok s a <? x) then None
+  else let s1 := payt s a (- x) in Some (set_tka s1 (up1 (tka s1) a (tka s1 a - x))).
 
 Inductive res := Ok (s : pst) | Err.
 
@@ -80,6 +99,9 @@ Inductive call :=
 | CIncreaseBridgeFee (txid fee : Z)
 | CCrossChain (amt fee : Z)                 (* the FX path: token = zero address, paid with msg.value *)
 | CBridgeCall (refund : acct)               (* no ERC-20 tokens; msg.value is what is bridged *)
+| CCrossChainTok (amt fee : Z)              (* the ERC-20 path: transferFrom(caller) by the precompile *)
+| CIncreaseBridgeFeeTok (txid fee : Z)      (* fee paid in the ERC-20 *)
+| CBridgeCallTok (refund : acct) (tamt : Z) (* one ERC-20 token; ConvertERC20{Sender: caller}, no allowance involved *)
 | CExecuteClaim (nonce : Z)
 | CUnknownMethod
 | CShortInput.
@@ -94,13 +116,15 @@ Definition call_name (c : call) : string :=
   | CBridgeCoinAmount => "bridgeCoinAmount" | CHasOracle => "hasOracle" | CIsOracleOnline => "isOracleOnline"
   | CCancelSendToExternal _ => "cancelSendToExternal" | CIncreaseBridgeFee _ _ => "increaseBridgeFee"
   | CCrossChain _ _ => "crossChain" | CBridgeCall _ => "bridgeCall" | CExecuteClaim _ => "executeClaim"
+  | CCrossChainTok _ _ => "crossChain" | CIncreaseBridgeFeeTok _ _ => "increaseBridgeFee" | CBridgeCallTok _ _ => "bridgeCall"
   | CUnknownMethod => "" | CShortInput => ""
   end%string.
 
 Definition call_contract (c : call) : pc_contract :=
   match c with
   | CBridgeCoinAmount | CHasOracle | CIsOracleOnline | CCancelSendToExternal _ | CIncreaseBridgeFee _ _
-  | CCrossChain _ _ | CBridgeCall _ | CExecuteClaim _ => PCrosschain
+  | CCrossChain _ _ | CBridgeCall _ | CExecuteClaim _
+  | CCrossChainTok _ _ | CIncreaseBridgeFeeTok _ _ | CBridgeCallTok _ _ => PCrosschain
   | _ => PStaking
   end.
 
@@ -209,34 +233,78 @@ Definition method_run (caller : acct) (value : Z) (c : call) (s : pst) : res :=
       else
         (* the EVM moved value caller -> precompile; handlerOriginToken hands it back; the pool takes amount+fee *)
         let s1 := pay s caller (- value) in
-        Ok (set_pool s1 (up1 (pool s1) (next_tx s1 + 1) (Some (caller, amt, fee))) (next_tx s1 + 1))
+        Ok (set_pool s1 (up1 (pool s1) (next_tx s1 + 1) (Some (caller, amt, fee, false))) (next_tx s1 + 1))
+  | CCrossChainTok amt fee =>
+      if (amt <=? 0) || (fee <? 0) then Err
+      else if negb (xready s) then Err
+      else match take_tok s caller (amt + fee) with        (* handlerERC20Token: transferFrom(sender = caller) *)
+           | None => Err
+           | Some s1 =>
+               let s2 := pay s1 caller (- value) in        (* a msg.value sent along stays with the precompile *)
+               Ok (set_pool s2 (up1 (pool s2) (next_tx s2 + 1) (Some (caller, amt, fee, true))) (next_tx s2 + 1))
+           end
   | CIncreaseBridgeFee txid fee =>
       if (txid <=? 0) || (fee <=? 0) then Err
       else if negb (xready s) then Err
       else if value <=? 0 then Err
       else if negb (Z.eqb fee value) then Err
       else match pool s txid with
-           | None => Err
-           | Some (snd_, a, f) =>
+           | Some (snd_, a, f, false) =>
                let s1 := pay s caller (- value) in
-               Ok (set_pool s1 (up1 (pool s1) txid (Some (snd_, a, f + fee))) (next_tx s1))
+               Ok (set_pool s1 (up1 (pool s1) txid (Some (snd_, a, f + fee, false))) (next_tx s1))
+           | _ => Err                                       (* missing, or its fee token is the ERC-20 *)
+           end
+  | CIncreaseBridgeFeeTok txid fee =>
+      if (txid <=? 0) || (fee <=? 0) then Err
+      else if negb (xready s) then Err
+      else match take_tok s caller fee with
+           | None => Err
+           | Some s1 =>
+               match pool s1 txid with
+               | Some (snd_, a, f, true) =>
+                   let s2 := pay s1 caller (- value) in
+                   Ok (set_pool s2 (up1 (pool s2) txid (Some (snd_, a, f + fee, true))) (next_tx s2))
+               | _ => Err
+               end
            end
   | CCancelSendToExternal txid =>
       if txid <=? 0 then Err
       else match pool s txid with
            | None => Err
-           | Some (snd_, a, f) =>
+           | Some (snd_, a, f, tk) =>
                if negb (Z.eqb snd_ caller) then Err        (* "Sender %s did not send Id %d" *)
                else
-                 let s1 := pay s caller (a + f) in
+                 let s1 := if tk then payt s caller (a + f) else pay s caller (a + f) in
                  Ok (set_pool s1 (up1 (pool s1) txid None) (next_tx s1))
            end
   | CBridgeCall refund =>
       if negb (xready s) then Err
       else
         let s1 := pay s caller (- value) in
-        Ok (set_bcalls s1 (up1 (bcalls s1) (next_bc s1 + 1) (Some (caller, refund, value))) (next_bc s1 + 1))
-  | CExecuteClaim _ => Err                                  (* no pending claim exists in the modelled states *)
+        Ok (set_bcalls s1 (up1 (bcalls s1) (next_bc s1 + 1) (Some (caller, refund, value, 0))) (next_bc s1 + 1))
+  | CBridgeCallTok refund tamt =>
+      if negb (xready s) then Err
+      else if tamt <=? 0 then Err                           (* ConvertERC20 refuses a non-positive amount *)
+      else if tok s caller <? tamt then Err                 (* burn from the holder = the caller; nobody else's tokens are named *)
+      else
+        let s1 := payt (pay s caller (- value)) caller (- tamt) in
+        Ok (set_bcalls s1 (up1 (bcalls s1) (next_bc s1 + 1) (Some (caller, refund, value, tamt))) (next_bc s1 + 1))
+  | CExecuteClaim nonce =>
+      if nonce <=? 0 then Err
+      else match claims s nonce with
+           | None => Err                                    (* "claim not found" *)
+           | Some (PSendToFx r amt) =>
+               let s1 := pay s r amt in                     (* the attested deposit is credited to ITS receiver *)
+               Ok (set_claims s1 (up1 (claims s1) nonce None))
+           | Some (PResultOk n) =>
+               match bcalls s n with
+               | None => Err                                (* the keeper panics: the transaction is aborted *)
+               | Some _ =>
+                   (* the attested result closes the outgoing call's record, whoever submits the execution *)
+                   let s1 := set_bcalls s (up1 (bcalls s) n None) (next_bc s) in
+                   Ok (set_claims s1 (up1 (claims s1) nonce None))
+               end
+           end
   | CUnknownMethod | CShortInput => Err
   end.
 
@@ -302,13 +370,20 @@ Definition entry := precompile_entry methods evm_sites.
 (* ---- what must not get worse for an account that is not the caller ---- *)
 
 Definition pool_kept (s s' : pst) (a : acct) : Prop :=
-  forall id amt fee, pool s id = Some (a, amt, fee) -> exists fee', pool s' id = Some (a, amt, fee') /\ fee <= fee'.
-Definition bcalls_kept (s s' : pst) (a : acct) : Prop :=
-  forall n r x, bcalls s n = Some (a, r, x) -> bcalls s' n = Some (a, r, x).
+  forall id amt fee tk, pool s id = Some (a, amt, fee, tk) ->
+  exists fee', pool s' id = Some (a, amt, fee', tk) /\ fee <= fee'.
+(* an outgoing bridge call stays as it is, unless the oracle quorum attested its result and that claim is executed *)
+Definition bcalls_kept (c : call) (s s' : pst) (a : acct) : Prop :=
+  forall n r x t, bcalls s n = Some (a, r, x, t) ->
+  bcalls s' n = Some (a, r, x, t) \/
+  exists nonce, c = CExecuteClaim nonce /\ claims s nonce = Some (PResultOk n).
 
 (* examples *)
 Definition z2 {A} (d : A) : Z -> Z -> A := fun _ _ => d.
 Definition ex_state : pst :=
   mkp (fun a => 1000) (fun a v => if Z.eqb a 1 then 100 else 0) (fun a v => if Z.eqb a 1 then 7 else 0) (fun a => a)
       (fun v o sp => if Z.eqb o 1 && Z.eqb sp 0 then 30 else 0) (z2 0) (z2 false) (fun v => Z.ltb v 2)
-      (fun id => if Z.eqb id 1 then Some (1, 50, 5) else None) 1 (fun _ => None) 0 true [].
+      (fun id => if Z.eqb id 1 then Some (1, 50, 5, false) else None) 1
+      (fun n => if Z.eqb n 1 then Some (1, 1, 40, 0) else None) 1 true []
+      (fun a => 500) (fun a => if Z.eqb a 1 then 300 else 0)
+      (fun n => if Z.eqb n 7 then Some (PSendToFx 2 90) else if Z.eqb n 8 then Some (PResultOk 1) else None).
